@@ -13,6 +13,11 @@ fn arg(args: &[String], name: &str) -> Option<String> {
 }
 
 fn main() {
+    if std::env::var("VERIF_TRACING").is_ok() {
+        use tracing_subscriber::{EnvFilter, FmtSubscriber};
+        let sub = FmtSubscriber::builder().with_env_filter(EnvFilter::new(std::env::var("VERIF_TRACING").unwrap())).with_writer(std::io::stderr).without_time().finish();
+        let _ = tracing::subscriber::set_global_default(sub);
+    }
     let args: Vec<String> = std::env::args().skip(1).collect();
     let verif_dir = std::env::var("VERIF_DIR").unwrap_or_else(|_| "/verif".into());
     let workers: usize = arg(&args, "--workers")
